@@ -64,7 +64,7 @@ ASSUMED = [
 ]
 HASH_INDEPENDENT_STREAMS = ("ops", "setitem", "ragged", "progs")
 OTHERS = ["c01", "c02", "c04", "c05", "c06", "c07", "c08", "c09", "c10", "c11", "c12", "c13", "c14", "c15", "c16",
-          "c17", "c18", "c19", "c20"]
+          "c17", "c18", "c19", "c20", "_views"]       # _views: table view histories of this check's own (harness/props/_views.py)
 QUICK_PER_MODULE = 320
 
 # ------------------------------------------------------------------ generators
